@@ -167,6 +167,17 @@ ApplySpec(x, f) ==
       [] f[1] = "over" -> [x EXCEPT !.len = Len(x.b) + Len(x.extra) + 1]
       [] f[1] = "setb" -> [x EXCEPT !.b[f[2]] = f[3]]
 
+(* optm: [id, code, b]: an EDNS option (specimen body b of option code `code`) inside the OPT
+   record of a response message; the same octets are also read as an OPT RDATA on its own.
+   Faults act on the BODY and keep the option length and RDLENGTH consistent, so what is
+   faulted is the option's own grammar, not the framing: cut the body at every k, SetByte. *)
+OptmRdata(x) == U16(x.code) \o U16(Len(x.b)) \o x.b
+OptmBytes(x) == U16(258) \o U16(33152) \o U16(1) \o U16(0) \o U16(0) \o U16(1) \o RecBytes(Q)
+                \o <<0>> \o U16(41) \o U16(1232) \o Zero4 \o U16(Len(OptmRdata(x))) \o OptmRdata(x)
+OptmCur == 12 + Len(RecBytes(Q)) + 11
+OptmFaults(x) == {<<"cut", k>> : k \in 0..(Len(x.b) - 1)} \cup {<<"setb", k, v>> : k \in 1..Len(x.b), v \in {0, 192, 255}}
+ApplyOptm(x, f) == IF f[1] = "cut" THEN [x EXCEPT !.b = SubSeq(x.b, 1, f[2])] ELSE [x EXCEPT !.b[f[2]] = f[3]]
+
 (* ================================================================ text inputs
    A text input is [lines, sep, nl]: lines of tokens <<role, string>>; tokens are joined by
    sep ("." for a name, " " otherwise), lines by a newline (nl: also after the last one).
@@ -193,7 +204,12 @@ NameTBases == [T1 |-> One(<<T("label", "www"), T("label", "example"), T("label",
                T3 |-> One(<<T("label", "*"), T("label", A63), T("label", "")>>, ".")]
 TtlBases == [L1 |-> One(<<T("ttl", "300")>>, " "), L2 |-> One(<<T("ttl", "1h30m")>>, " "),
              L3 |-> One(<<T("ttl", "1w2d3h4m5s")>>, " "), L4 |-> One(<<T("ttl", "4294967295")>>, " ")]
-RdtBase(k) == [lines |-> <<[i \in 1..Len(RdToks[k]) |-> T("any", RdToks[k][i])]>>, sep |-> " ", nl |-> FALSE]
+\* LOC and GPOS fields are floating-point numbers
+RdtBase(k) == [lines |-> <<[i \in 1..Len(RdToks[k]) |-> T(IF k \in {"LOC", "GPOS"} THEN "float" ELSE "any", RdToks[k][i])]>>,
+               sep |-> " ", nl |-> FALSE]
+\* rdg: the generic (RFC 3597 section 5) text  \# <length> <hex ...>  of a specimen, for known and unknown types
+GenRole(i) == IF i = 1 THEN "gmark" ELSE IF i = 2 THEN "glen" ELSE "ghex"
+RdgBase(k) == [lines |-> <<[i \in 1..Len(RdGenToks[k]) |-> T(GenRole(i), RdGenToks[k][i])]>>, sep |-> " ", nl |-> FALSE]
 ZLine(ts) == ts
 ZoneBases ==
     [Z1 |-> [sep |-> " ", nl |-> TRUE, lines |-> <<
@@ -216,7 +232,13 @@ ZoneBases ==
         <<T("dir", "$TTL"), T("ttl", "300")>>,
         <<T("owner", "@"), T("class", "IN"), T("type", "SOA"), T("name", "ns"), T("name", "hostmaster"),
           T("int", "1"), T("int", "7200"), T("int", "900"), T("int", "1209600"), T("int", "300")>>,
-        <<T("dir", "$GENERATE"), T("grange", "1-3"), T("gmod", "host${0,2,d}"), T("type", "A"), T("any", "10.0.0.$")>> >>]]
+        <<T("dir", "$GENERATE"), T("grange", "1-3"), T("gmod", "host${0,2,d}"), T("type", "A"), T("any", "10.0.0.$")>> >>],
+     \* generic text of a known and of an unknown type
+     Z5 |-> [sep |-> " ", nl |-> TRUE, lines |-> <<
+        <<T("dir", "$ORIGIN"), T("name", "example.")>>,
+        <<T("dir", "$TTL"), T("ttl", "300")>>,
+        <<T("owner", "a"), T("type", "A"), T("gmark", "\\#"), T("glen", "4"), T("ghex", "c000"), T("ghex", "02"), T("ghex", "0"), T("ghex", "1")>>,
+        <<T("owner", "b"), T("type", "TYPE65280"), T("gmark", "\\#"), T("glen", "4"), T("ghex", "0a00"), T("ghex", "00"), T("ghex", "0"), T("ghex", "1")>> >>]]
 MsgTBases ==
     [X1 |-> [sep |-> " ", nl |-> TRUE, lines |-> <<
         <<T("any", "id"), T("int", "1234")>>,
@@ -272,6 +294,18 @@ TokVariant(name, s) ==
       [] name = "gm-widthhuge" -> "host${0," \o D5000 \o ",d}"
       [] name = "gm-off9" -> "host${999999999,2,d}"
       [] name = "gm-width9" -> "host${0,999999999,d}"
+      [] name = "nonhex1" -> s \o "g"                     \* generic form: a non-hex character (odd / even count)
+      [] name = "nonhex2" -> s \o "gg"
+      [] name = "hexmore" -> s \o "00"                    \*   more octets than the length says
+      [] name = "zero" -> "0"                             \*   fewer
+      [] name = "f-nan" -> "nan"                          \* float spellings
+      [] name = "f-pnan" -> "+NaN"
+      [] name = "f-nanm" -> "nanm"
+      [] name = "f-inf" -> "inf"
+      [] name = "f-ninf" -> "-inf"
+      [] name = "f-e999" -> "1e999"
+      [] name = "f-em999" -> "1e-999"
+      [] name = "f-hex" -> "0x1.8p3"
       [] name = "altlow" -> "-100001.00m"                 \* below / above what LOC can encode
       [] name = "althigh" -> "42849673.00m"
 EscNames == {"esc0", "esc1", "esc2", "esc256", "esc999", "escbig9", "eschuge"}
@@ -279,6 +313,7 @@ QuoteNames == {"emptyq", "unterm", "nlq", "popen", "pclose"}
 NumNames == {"neg1", "big32", "big9", "huge", "huge5000", "altlow", "althigh"}
 \* variants carrying a 5000-digit string: applied as the only fault of an input (pairs with
 \* them would only multiply the volume of text)
+FloatNames == {"f-nan", "f-pnan", "f-nanm", "f-inf", "f-ninf", "f-e999", "f-em999", "f-hex"}
 HugeNames == {"huge5000", "hugeunit", "eschuge", "hugetype", "hugeclass", "gr-stophuge", "gr-starthuge", "gr-stephuge",
               "gm-offhuge", "gm-widthhuge"}
 VariantsOfRole(role) ==
@@ -290,6 +325,10 @@ VariantsOfRole(role) ==
       [] role = "gmod" -> EscNames \cup QuoteNames \cup {"gm-offhuge", "gm-widthhuge", "gm-off9", "gm-width9"}
       [] role = "dir" -> {"dirgarbage", "emptyq"}
       [] role \in {"any", "int"} -> EscNames \cup QuoteNames \cup NumNames
+      [] role = "float" -> EscNames \cup QuoteNames \cup NumNames \cup FloatNames
+      [] role = "gmark" -> {"esc1", "emptyq", "bogus"}
+      [] role = "glen" -> NumNames \cup {"zero", "badttl", "emptyq", "esc1"}
+      [] role = "ghex" -> {"nonhex1", "nonhex2", "hexmore", "emptyq", "unterm", "esc1"}
       [] OTHER -> EscNames \cup QuoteNames
 GarbageLines == [g1 |-> <<T("dir", "$TTL")>>, g2 |-> <<T("dir", "$ORIGIN")>>,
                  g3 |-> <<T("dir", "$TTL"), T("any", "abc")>>, g4 |-> <<T("dir", "$BOGUS"), T("any", "x")>>,
@@ -299,11 +338,11 @@ GarbageLines == [g1 |-> <<T("dir", "$TTL")>>, g2 |-> <<T("dir", "$ORIGIN")>>,
 TextFaults(x, k) ==
     UNION {UNION {{<<"tok", l, i, v>> : v \in {u \in VariantsOfRole(x.lines[l][i][1]) : TokVariant(u, x.lines[l][i][2]) # x.lines[l][i][2]}}
                   : i \in 1..Len(x.lines[l])} : l \in 1..Len(x.lines)}
-    \cup (IF k \in {"rdt", "zone", "msgt"}
+    \cup (IF k \in {"rdt", "rdg", "zone", "msgt"}
           THEN {<<"drop", l, i>> : l \in 1..Len(x.lines), i \in 1..Len(x.lines[1])} \cap
                UNION {{<<"drop", l, i>> : i \in 1..Len(x.lines[l])} : l \in 1..Len(x.lines)}
           ELSE {})
-    \cup (IF k \in {"rdt", "zone", "msgt", "ttl"} THEN {<<"add", l>> : l \in 1..Len(x.lines)} ELSE {})
+    \cup (IF k \in {"rdt", "rdg", "zone", "msgt", "ttl"} THEN {<<"add", l>> : l \in 1..Len(x.lines)} ELSE {})
     \cup (IF k = "zone" THEN {<<"ins", l, g>> : l \in 1..Len(x.lines), g \in DOMAIN GarbageLines} ELSE {})
 ApplyText(x, f) ==
     CASE f[1] = "tok" -> [x EXCEPT !.lines[f[2]][f[3]] = <<"faulted", TokVariant(f[4], x.lines[f[2]][f[3]][2])>>]
@@ -312,22 +351,26 @@ ApplyText(x, f) ==
       [] f[1] = "ins" -> [x EXCEPT !.lines = Insert(x.lines, f[2], GarbageLines[f[3]])]
 
 (* ================================================================ the generator *)
-IsText(k) == k \in {"namet", "rdt", "ttl", "zone", "msgt"}
+IsText(k) == k \in {"namet", "rdt", "rdg", "ttl", "zone", "msgt"}
 BaseIds(k) == CASE k = "msg" -> DOMAIN MsgBases [] k = "namew" -> DOMAIN NameBases [] k = "rdw" -> RdKeys
                 [] k = "optw" -> OptKeys [] k = "namet" -> DOMAIN NameTBases [] k = "rdt" -> RdTextKeys
                 [] k = "ttl" -> DOMAIN TtlBases [] k = "zone" -> DOMAIN ZoneBases [] k = "msgt" -> DOMAIN MsgTBases
+                [] k = "optm" -> OptKeys [] k = "rdg" -> RdKeys
 BaseLay(k, b) == CASE k = "msg" -> MsgBases[b] [] k = "namew" -> NameBases[b] [] k = "rdw" -> Spec(b, RdWire[b])
                    [] k = "optw" -> Spec(b, OptWire[b]) [] k = "namet" -> NameTBases[b] [] k = "rdt" -> RdtBase(b)
                    [] k = "ttl" -> TtlBases[b] [] k = "zone" -> ZoneBases[b] [] k = "msgt" -> MsgTBases[b]
+                   [] k = "optm" -> [id |-> b, code |-> OptCode[b], b |-> OptWire[b]] [] k = "rdg" -> RdgBase(b)
 IsHuge(f) == f[1] = "tok" /\ f[4] \in HugeNames
 LayFaults(k, x, h) == CASE k = "msg" -> MsgFaults(x) [] k = "namew" -> NameFaults(x)
-                        [] k \in {"rdw", "optw"} -> SpecFaults(x)
+                        [] k \in {"rdw", "optw"} -> SpecFaults(x) [] k = "optm" -> OptmFaults(x)
                         [] OTHER -> IF h = <<>> THEN TextFaults(x, k)
                                     ELSE IF \E i \in 1..Len(h) : IsHuge(h[i]) THEN {}
                                     ELSE {f \in TextFaults(x, k) : ~IsHuge(f)}
 ApplyLay(k, x, f) == CASE k = "msg" -> ApplyMsg(x, f) [] k = "namew" -> ApplyName(x, f)
-                       [] k \in {"rdw", "optw"} -> ApplySpec(x, f) [] OTHER -> ApplyText(x, f)
-WireOf(k, x) == CASE k = "msg" -> MsgBytes(x) [] k = "namew" -> NameBytes(x) [] OTHER -> SpecBytes(x)
+                       [] k \in {"rdw", "optw"} -> ApplySpec(x, f) [] k = "optm" -> ApplyOptm(x, f)
+                       [] OTHER -> ApplyText(x, f)
+WireOf(k, x) == CASE k = "msg" -> MsgBytes(x) [] k = "namew" -> NameBytes(x) [] k = "optm" -> OptmBytes(x)
+                  [] OTHER -> SpecBytes(x)
 NoPost == <<"none">>
 \* Truncate(k) at every k, TrailingBytes
 PostFaults(k, x) == IF k \in {"msg", "namew"}
@@ -390,16 +433,18 @@ MsgVerdictOk(m, opts, o) ==
 NameWVerdict(x, p) == LET w == Wire("namew", x, p) IN IF Decode(w, x.cur).ok THEN "ok" ELSE "err"
 SpecVerdict(h) == IF h = <<>> THEN "ok" ELSE IF \E i \in 1..Len(h) : h[i][1] = "over" THEN "err" ELSE "free"
 
-FixedLine(line) == \E i \in 1..Len(line) : line[i][1] = "dir" \/ (line[i][1] = "type" /\ line[i][2] \in {"SOA", "NS", "A", "MX"})
+FixedLine(line) == \E i \in 1..Len(line) : line[i][1] = "dir" \/ (line[i][1] = "type" /\ line[i][2] \in {"SOA", "NS", "A", "MX", "TYPE65280"})
 TokVerdict(k, role, v, last) ==
-    IF role = "comment" THEN "free" ELSE      \* anything goes inside a comment
+    IF role \in {"comment", "gmark"} THEN "free" ELSE      \* anything goes inside a comment; without the \# marker
+                                                             \* the rest is read in the type's own syntax
     CASE v \in {"unterm", "nlq", "popen", "pclose", "badttl", "bogus", "bigtype", "bigclass", "long", "dirgarbage",
                 "hugetype", "hugeclass", "hugeunit", "gr-stophuge", "gr-starthuge", "gr-stephuge", "gm-offhuge", "gm-widthhuge",
                 "gm-width9"} -> "err"        \* (a 999999999-wide field fits no label)
       [] v = "empty" -> IF last THEN "free" ELSE "err"       \* "a." is a name, "a..b" is not
-      [] v = "emptyq" -> IF role \in {"str", "any"} THEN "free" ELSE "err"
+      [] v = "emptyq" -> IF role \in {"str", "any", "float", "ghex"} THEN "free" ELSE "err"
       [] v = "esc0" -> IF role = "label" /\ last THEN "err" ELSE "free"
-      [] v \in {"esc1", "esc2", "esc256", "esc999", "escbig9", "eschuge"} -> IF role = "any" THEN "free" ELSE "err"
+      [] v \in {"nonhex1", "nonhex2", "hexmore"} -> "err"
+      [] v \in {"esc1", "esc2", "esc256", "esc999", "escbig9", "eschuge"} -> IF role \in {"any", "float"} THEN "free" ELSE "err"
       \* a TTL is a number 0 .. 2^32 - 1 (RFC 2181 section 8 caps it lower; the library documents 2^32 - 1)
       [] v \in {"neg1", "big32", "huge", "huge5000", "altlow", "althigh"} -> IF role = "ttl" THEN "err" ELSE "free"
       [] v = "big9" -> IF role = "ttl" THEN "ok" ELSE "free"
@@ -410,9 +455,12 @@ TextVerdict(k, b, h) ==
     ELSE IF Len(h) > 1 \/ k = "msgt" THEN "free"
     ELSE LET f == h[1]
              line == x.lines[f[2]]
-             fixed == IF k = "rdt" THEN RdArity[b] = "fixed" ELSE IF k = "ttl" THEN TRUE ELSE FixedLine(line) IN
+             fixed == IF k = "rdt" THEN RdArity[b] = "fixed" ELSE IF k \in {"ttl", "rdg"} THEN TRUE ELSE FixedLine(line) IN
          CASE f[1] = "tok" -> TokVerdict(k, line[f[3]][1], f[4], f[3] = Len(line))
-           [] f[1] = "drop" -> IF fixed /\ (k = "rdt" \/ line[f[3]][1] \in {"name", "int", "str", "ip"} \/ line[1][1] = "dir")
+           \* generic form: without the marker or the length the rest may read as something else;
+           \* without one of the hex tokens the digit count is odd or the length is wrong
+           [] f[1] = "drop" /\ k = "rdg" -> IF f[3] >= 3 THEN "err" ELSE "free"
+           [] f[1] = "drop" -> IF fixed /\ (k = "rdt" \/ line[f[3]][1] \in {"name", "int", "str", "ip", "ghex", "glen"} \/ line[1][1] = "dir")
                                THEN "err" ELSE "free"
            [] f[1] = "add" -> IF fixed THEN "err" ELSE "free"
            [] f[1] = "ins" -> "err"
